@@ -156,3 +156,154 @@ def r3_task(envr, item):
 GROUPS.append(Group('R3', 'str(s) and format(s, "") are to_str() with its defaults', ['C01'], 'B',
                     ['AnsiString.__str__', 'AnsiString.__format__'], r3_items, r3_task,
                     bounds='change points N<=2, objects<=2 (delegation; the rendering itself is group R4)', assumes=['K1']))
+
+
+# ============================================================================================= Q1-Q3: round trip, simplify (C03)
+from pyvc.interp import ClassRef  # noqa: E402
+
+CL_Q1 = [
+    Clause('text-survives-the-round-trip', 'post_rt_text'),
+    Clause('each-character-keeps-its-effective-style', 'post_rt_char_state', forall='rt_k_range'),
+    Clause('result-well-formed-and-new', 'post_rt_result_wf'),
+]
+CL_Q2 = [
+    Clause('text-unchanged', 'post_simplify_text'),
+    Clause('each-character-keeps-its-effective-style', 'post_simplify_char_state', forall='simplify_k_range'),
+    Clause('all-settings-valid-and-parsable-afterwards', 'post_simplify_all_parsable'),
+]
+CL_Q3 = [Clause('second-simplify-leaves-the-rendering-unchanged', 'post_simplify_idempotent')]
+CL_Q3F = [Clause('simplified-value-renders-to-a-fixed-point', 'post_simplified_is_fixed_point')]
+
+
+Q_RANGES = ((0, 9), (10, 29), (30, 49), (50, 110))
+
+
+def q_setting(c, kind, name, part=None):
+    """part: index into Q_RANGES restricting the (first) symbolic code - work items are split by it for parallelism"""
+    if kind in ('code', 'c256', 'rgb'):
+        st = render_setting(c, kind, name)
+        if kind == 'code' and part is not None:
+            code = st.attrs['_str']
+            v = sym.atoms_of(code)[0][1]
+            c.assume(b_and(i_cmp('>=', v, Q_RANGES[part][0]), i_cmp('<=', v, Q_RANGES[part][1])))
+        return st
+    if kind in ('multi', 'multiq'):
+        # several parameter groups in one setting (valid, not parsable as one group); the quick form takes the second code
+        # from a reset, two clear codes, a colour and an unknown code
+        a = c.named_int('ma_' + name, 0, 110)
+        b = c.named_int('mb_' + name, 0, 110) if kind == 'multi' else [0, 10, 22, 31, 77][c.choice(5)]
+        for v in (a, b):
+            if not isinstance(v, int):
+                c.assume(b_and(i_cmp('!=', v, 38), i_cmp('!=', v, 48), i_cmp('!=', v, 58)))
+        if part is not None:
+            c.assume(b_and(i_cmp('>=', a, Q_RANGES[part][0]), i_cmp('<=', a, Q_RANGES[part][1])))
+        return PObj('AnsiSetting', {'_str': sym.mk_rope([('istr', a), ('lit', ';'), ('istr', b)])})
+    if kind == 'invalid':
+        # contains a final byte: would end the escape sequence
+        return PObj('AnsiSetting', {'_str': ['zz', '1m', '31;A', '@'][c.choice(4)]})
+    raise ValueError(kind)
+
+
+def q_items(tier, kinds1, kinds2, quick_points=3):
+    import itertools
+    out = []
+    if tier == 'quick':
+        shp = [sh for sh in shapes.table_shapes(3, 2, 2, 2, reuse=False)
+               if len(sh) <= quick_points and (shapes.shape_nobj(sh) <= 1 or len(sh) <= 2 or
+                                               sh in ([([0], []), ([1], []), ([], [0, 1])], [([0], []), ([1], [0]), ([], [1])]))]
+    else:
+        shp = shapes.table_shapes(3, 2, 2, 2)
+    for sh in shp:
+        n = shapes.shape_nobj(sh)
+        if n == 0:
+            combos = [[]]
+        elif n == 1:
+            combos = [[k] for k in kinds1]
+        else:
+            combos = kinds2
+        for ks in combos:
+            splits = [range(len(Q_RANGES)) if k in ('code', 'multi', 'multiq') else [None] for k in ks]
+            for parts in itertools.product(*splits):
+                out.append([sh, ks, list(parts)])
+    return out
+
+
+Q_PAIRS = [['code', 'code'], ['code', 'c256'], ['rgb', 'code'], ['c256', 'rgb']]
+Q_PAIRS_S = Q_PAIRS + [['multi', 'code'], ['code', 'invalid'], ['invalid', 'rgb'], ['multi', 'multi']]
+
+
+def q1_items(tier):
+    return q_items(tier, ('code', 'c256', 'rgb'), Q_PAIRS)
+
+
+def q2_items(tier):
+    if tier == 'quick':
+        return q_items(tier, ('code', 'c256', 'rgb', 'multi', 'invalid'), [['code', 'c256'], ['multi', 'code'], ['code', 'invalid']], 2)
+    return q_items(tier, ('code', 'c256', 'rgb', 'multi', 'invalid'), Q_PAIRS_S)
+
+
+def q3_items(tier):
+    if tier == 'quick':
+        its = q_items(tier, ('code', 'c256', 'multi'), [['code', 'c256']], 2)
+        # one chained shape with a two-group setting followed by a single code (the shape of finding D27)
+        chain = [([0], []), ([1], [0]), ([], [1])]
+        its += [[chain, ['multiq', 'code'], [a, b]] for a in range(len(Q_RANGES)) for b in range(len(Q_RANGES))]
+    else:
+        its = q_items(tier, ('code', 'c256', 'rgb', 'multi'), Q_PAIRS + [['multi', 'code']])
+    return [it + [w] for it in its for w in ('twice', 'fixed')]
+
+
+def _q_string(c, shape, kinds, parts):
+    sett = {j: q_setting(c, k, 's%d' % j, parts[j]) for j, k in enumerate(kinds)}
+    s, info = shapes.build_ansistring(c, shape, 'a', settings=sett)
+    info['text'].escfree = True
+    return s
+
+
+def q1_task(envr, item):
+    shape, kinds, parts = item
+
+    def body(c):
+        s = _q_string(c, shape, kinds, parts)
+        run_contract(envr, c, 'roundtrip', None, [ClassRef('AnsiString'), s], {}, CL_Q1, frame=('s',))
+    return ContractRun(body, CL_Q1, frame=('s',), use=('K1', 'B1', 'SL'), nosumm=('AnsiString.set_ansi_str',))
+
+
+GROUPS.append(Group('Q1', 'AnsiString(str(s)) has the text of s and shows every character with the same effective style',
+                    ['C03'], 'B', ['AnsiString.to_str', 'AnsiString.set_ansi_str', 'AnsiString.__init__'], q1_items, q1_task,
+                    bounds='change points N<=3, setting objects <=2; setting texts: a symbolic code 0..110 (not a bare 38/48/58), '
+                    '38/48/58;5;n, 38/48/58;2;r;g;b with symbolic arguments; text length and keys symbolic; base text without ESC',
+                    assumes=['B1', 'K1', 'SL']))
+
+
+def q2_task(envr, item):
+    shape, kinds, parts = item
+
+    def body(c):
+        s = _q_string(c, shape, kinds, parts)
+        run_contract(envr, c, 'AnsiString.simplify', s, [], {}, CL_Q2)
+    return ContractRun(body, CL_Q2, use=('K1', 'B1', 'SL'), nosumm=('AnsiString.set_ansi_str',))
+
+
+GROUPS.append(Group('Q2', 'simplify(): text and effective style of every character unchanged; afterwards all settings valid and '
+                    'parsable', ['C03'], 'B', ['AnsiString.simplify', 'AnsiString.to_str', 'AnsiString.set_ansi_str'], q2_items,
+                    q2_task, bounds='as Q1, plus settings holding two parameter groups and invalid settings (zz, 1m, 31;A, @)',
+                    assumes=['B1', 'K1', 'SL']))
+
+
+def q3_task(envr, item):
+    shape, kinds, parts, which = item
+
+    def body(c):
+        s = _q_string(c, shape, kinds, parts)
+        if which == 'twice':
+            run_contract(envr, c, 'simplify_twice', None, [s], {}, CL_Q3)
+        else:
+            run_contract(envr, c, 'render_parse_render', None, [ClassRef('AnsiString'), s], {}, CL_Q3F)
+    return ContractRun(body, CL_Q3 if which == 'twice' else CL_Q3F, use=('K1', 'B1', 'SL'), nosumm=('AnsiString.set_ansi_str',))
+
+
+GROUPS.append(Group('Q3', 'simplify() is idempotent on the rendering and a simplified value renders to a fixed point '
+                    '(str(AnsiString(str(s))) == str(s))', ['C03'], 'B',
+                    ['AnsiString.simplify', 'AnsiString.to_str', 'AnsiString.set_ansi_str'], q3_items, q3_task,
+                    bounds='as Q2 without invalid settings', assumes=['B1', 'K1', 'SL']))
